@@ -15,7 +15,7 @@ SENSE = {
     "t4": bytes([0x72, 4, 0x44, 0x00]),
 }
 ROUTES = ("direct", "direct_prevraw", "facade_execute", "facade_execute_prevraw", "facade_tur", "facade_inquiry", "facade_ata",
-          "facade_tur_after_ata", "facade_inquiry_after_ata", "direct_with", "facade_with")
+          "facade_tur_after_ata", "facade_inquiry_after_ata", "facade_tur_after_failed_ata", "direct_with", "facade_with")
 
 
 class World(object):
@@ -157,7 +157,15 @@ def one(w, tr, prev, st, s, raw, route):
                 facade.testunitready()
             except Exception:
                 pass
-        if route.endswith("_after_ata"):
+        if route.endswith("_after_failed_ata"):
+            # the one facade method that asks for raw sense ran on this facade before and FAILED in the transport
+            # (BUSY): whatever it had switched on for itself is off again
+            w.state.update(st=8, s=None)
+            try:
+                facade.atapassthrough16(0, 0, 0, 0, 0, 0, 0, 0, 0, 0xEC)
+            except Exception:
+                pass
+        elif route.endswith("_after_ata"):
             # the one facade method that asks for raw sense ran (successfully) on this facade before
             w.state.update(st=0, s=None)
             facade.atapassthrough16(0, 0, 0, 0, 0, 0, 0, 0, 0, 0xEC)
@@ -274,7 +282,8 @@ def run(chk, replay=None):
                     continue
                 if route.endswith("prevraw") and c["prev"] == "none":
                     continue
-                if route in ("facade_tur", "facade_inquiry", "facade_tur_after_ata", "facade_inquiry_after_ata") and c["raw"]:
+                if route in ("facade_tur", "facade_inquiry", "facade_tur_after_ata", "facade_inquiry_after_ata",
+                             "facade_tur_after_failed_ata") and c["raw"]:
                     continue      # these facade methods never ask for raw sense
                 if route == "facade_ata" and not c["raw"]:
                     continue      # ATA pass-through always asks for raw sense
